@@ -187,3 +187,4 @@ def subtree_has_nothing_reportable(cx, b1, b2, opts, iface):
                 continue
             return False
     return found
+
